@@ -1,8 +1,11 @@
-"""developer helper: python3 -m vx.dev <unit> [verus args]  -- generate and run verus with human-readable output"""
+"""developer helper: python3 -m vx.dev <unit> [--full] [verus args]"""
 import os, sys, subprocess
 from . import template as T
+from . import verus as V
 ROOT = os.path.dirname(os.path.dirname(os.path.abspath(__file__)))
 unit = sys.argv[1]
+full = '--full' in sys.argv
+rest = [a for a in sys.argv[2:] if a != '--full']
 u = T.Unit(os.path.join(ROOT, 'units', unit, 'template.rs'), repo=os.environ.get('VERIF_REPO', '/repo'))
 text = u.build()
 os.makedirs(os.path.join(ROOT, 'build', unit), exist_ok=True)
@@ -11,5 +14,20 @@ open(p, 'w').write(text)
 if u.lost_anchors:
     print('LOST ANCHORS:', u.lost_anchors)
 print('obligations:', len(u.obligations), 'functions:', len(u.functions), 'lemmas:', len(u.lemmas))
-r = subprocess.run(['verus', p, '--multiple-errors', '20', '--rlimit', '30', '--triggers-mode', 'silent'] + sys.argv[2:], cwd=os.path.dirname(p))
-sys.exit(r.returncode)
+if full:
+    r = subprocess.run(['verus', p, '--multiple-errors', '20', '--rlimit', '30', '--triggers-mode', 'silent'] + rest, cwd=os.path.dirname(p))
+    sys.exit(r.returncode)
+res = V.run(p, extra=rest)
+an = V.analyse(res, u)
+for e in an['tool_errors']:
+    print('TOOL-ERROR:', e['message'], '\n', e['rendered'][:1200])
+for e in an['undecided']:
+    print('UNDECIDED:', e)
+for f in an['failed']:
+    lines = [l for l in f['rendered'].split('\n') if ('-->' in l or 'at this exit' in l or 'at the end' in l or 'failed' in l)]
+    print('FAIL %-70s %s L%s' % (f['id'], f['message'], f['line']))
+    for s in f['detail'].split('; '):
+        print('       ', s[:150])
+print(res['results'], 'wall %.1fs' % res['wall_s'])
+slow = sorted(res['functions'], key=lambda x: -x.get('time', 0))[:5]
+print('slowest:', [(f['function'].split('::')[-1], f['time']) for f in slow])
